@@ -352,7 +352,7 @@ def run_cbmc(gb, inst, tag, workdir, loops=()):
             args = " ".join("--property '%s'" % n for n in names)
             sc = os.path.join(workdir, "run-%s-%s-%s.sh" % (tag, gt, be))
             with open(sc, "w") as f:
-                f.write("ulimit -v %d\nexec /usr/bin/time -f 'VXTIME %%e s %%M KB' cbmc %s %s --trace --verbosity 6 %s %s\n" % (
+                f.write("ulimit -v %d\nexec /usr/bin/time -f 'VXTIME %%e s %%M KB' cbmc %s %s --trace --verbosity 7 %s %s\n" % (
                     inst.mem_gb * 1024 * 1024, gb, " ".join(flags), " ".join(BEFLAGS[be]), args))
             lf = open(log, "w")
             p = subprocess.Popen(["bash", sc], stdout=lf, stderr=subprocess.STDOUT, preexec_fn=os.setsid)
